@@ -297,10 +297,6 @@ class R1Synth(object):
             else:
                 res.blocked.setdefault(st[2], set()).add(q)
         res.values = {q: core.norm(v) for q, v in self.vals.items()}
-        for q, nv in res.values.items():
-            if nv[0] == 's' and '%' in nv[1]:
-                # configparser (the solution's container) refuses a lone %: producing the solution fails loudly
-                res.aborts.setdefault('<solution>', ('config-error', q))
         if res.aborts:
             res.verdict = 'abort'
         elif res.unimpl or res.missing or res.blocked:
